@@ -119,6 +119,37 @@ var entryPoints = map[string]func(b []byte) callResult{
 		}
 		return callResult{Val: c}
 	},
+	// the same decoder with a destination that is not fresh: a slice variable that already holds
+	// two elements from an earlier document. What comes out is a matter of the input alone.
+	"control.Unmarshal(used []deb.Control)": func(b []byte) callResult {
+		var used []deb.Control
+		if err := control.Unmarshal(&used, strings.NewReader("Package: stale1\nVersion: 9\nArchitecture: all\nDepends: stale-dep\n\nPackage: stale2\nVersion: 9\nArchitecture: all\n")); err != nil || len(used) != 2 {
+			return callResult{ValWithE: fmt.Sprintf("HARNESS: cannot fill the destination: %v", err)}
+		}
+		var fresh []deb.Control
+		ferr := control.Unmarshal(&fresh, bytes.NewReader(b))
+		uerr := control.Unmarshal(&used, bytes.NewReader(b))
+		if (ferr == nil) != (uerr == nil) {
+			return callResult{ValWithE: fmt.Sprintf("control.Unmarshal into a fresh []deb.Control returned %v, into a slice that held two elements before %v", ferr, uerr)}
+		}
+		if ferr != nil {
+			return callResult{Err: true, ErrText: ferr.Error()}
+		}
+		if len(fresh) != len(used) || (len(fresh) > 0 && !reflect.DeepEqual(fresh, used)) {
+			names := func(cs []deb.Control) []string {
+				out := []string{}
+				for _, c := range cs {
+					out = append(out, c.Package)
+				}
+				return out
+			}
+			return callResult{ValWithE: fmt.Sprintf("control.Unmarshal of the same bytes gives %d elements %q in a fresh []deb.Control and %d elements %q in a slice that held two elements before", len(fresh), names(fresh), len(used), names(used))}
+		}
+		if len(fresh) == 0 {
+			return callResult{Val: 0}
+		}
+		return callResult{Val: fresh}
+	},
 	"changelog.Parse": func(b []byte) callResult {
 		es, err := changelog.Parse(bytes.NewReader(b))
 		return mkResult("changelog.Parse", es, err)
@@ -232,6 +263,14 @@ func genValidFor(t *rapid.T, ep string) string {
 	case "control.ParseSourceIndex":
 		return genSourcesDoc(t).Text
 	case "control.Unmarshal(deb.Control)":
+		return genDebControlDoc(t).Text
+	case "control.Unmarshal(used []deb.Control)":
+		switch rapid.IntRange(0, 5).Draw(t, "usedDoc") {
+		case 0:
+			return rapid.SampledFrom([]string{"", "\n", "\n\n", "# nothing here\n", " \n", "#\n\n#\n"}).Draw(t, "usedEmpty")
+		case 1:
+			return genDebControlDoc(t).Text + "\n" + genDebControlDoc(t).Text
+		}
 		return genDebControlDoc(t).Text
 	default:
 		return renderClDoc(genClDoc(t))
@@ -497,7 +536,7 @@ func genParserInput(t *rapid.T, ep string) ParserInput {
 
 var specC18Total = Register(&Spec[ParserInput]{
 	Prop: "C18", Name: "total",
-	Rule:  "for each of 13 parser entry points (version.Parse; dependency.Parse / ParseArch / ParseArchitectures; ParagraphReader.All; ParseDsc, ParseChanges, ParseControl, ParseBinaryIndex, ParseSourceIndex, Unmarshal(&deb.Control); changelog.Parse / ParseOne) inputs from that parser's own grammar generator (4/20), line- and byte-level mutations (delete, duplicate, join, swap lines; one field repeated under lower- and upper-case spellings of its name; one field's value replaced by nothing, blanks, or one to three empty-line markers) and truncations of them - at any byte, or right in front of / behind a punctuation character, with and without a line end put behind the cut - (14/22), one or two words of a valid input replaced by / glued to a soup of 1..3 tokens of the formats' own punctuation, or a valid input inside a clearsign frame in the shapes and half-shapes such frames come in (2/22), raw bytes, or a valid input with a line-start marker ('#', '-', '/*', '$Id$', blank, '.', NUL ...) put in front of, behind or inside it with and without a line end (1/21), a valid input - or the format's smallest unit, 1000 times and more - repeated up to 64 KiB, in half of the cases with two to four copies damaged in different ways (1/22), and inputs whose total length or last-line length is exactly 4096*k-1, 4096*k or 4096*k+1 with and without a final newline (1/21). Oracle: the call returns within 60 s without panicking; when it returns an error no pointer/slice/map result is non-nil and non-empty and a struct result (version.Parse) is the zero value; a second call - made after 0..2 other generated inputs (often failing ones) went through the same entry point - gives a deeply equal value, the same error-ness and the same error text (big inputs: four more calls). Non-trivial: grammar-derived input (valid, mutated or big); distinct by (entry point, bytes).",
+	Rule:  "for each of 14 parser entry points (control.Unmarshal into a []deb.Control variable that held two elements before, compared with the same bytes decoded into a fresh one - documents of 0, 1 and 2 paragraphs; version.Parse; dependency.Parse / ParseArch / ParseArchitectures; ParagraphReader.All; ParseDsc, ParseChanges, ParseControl, ParseBinaryIndex, ParseSourceIndex, Unmarshal(&deb.Control); changelog.Parse / ParseOne) inputs from that parser's own grammar generator (4/20), line- and byte-level mutations (delete, duplicate, join, swap lines; one field repeated under lower- and upper-case spellings of its name; one field's value replaced by nothing, blanks, or one to three empty-line markers) and truncations of them - at any byte, or right in front of / behind a punctuation character, with and without a line end put behind the cut - (14/22), one or two words of a valid input replaced by / glued to a soup of 1..3 tokens of the formats' own punctuation, or a valid input inside a clearsign frame in the shapes and half-shapes such frames come in (2/22), raw bytes, or a valid input with a line-start marker ('#', '-', '/*', '$Id$', blank, '.', NUL ...) put in front of, behind or inside it with and without a line end (1/21), a valid input - or the format's smallest unit, 1000 times and more - repeated up to 64 KiB, in half of the cases with two to four copies damaged in different ways (1/22), and inputs whose total length or last-line length is exactly 4096*k-1, 4096*k or 4096*k+1 with and without a final newline (1/21). Oracle: the call returns within 60 s without panicking; when it returns an error no pointer/slice/map result is non-nil and non-empty and a struct result (version.Parse) is the zero value; a second call - made after 0..2 other generated inputs (often failing ones) went through the same entry point - gives a deeply equal value, the same error-ness and the same error text (big inputs: four more calls). Non-trivial: grammar-derived input (valid, mutated or big); distinct by (entry point, bytes).",
 	Check: checkParserInput,
 })
 
